@@ -30,7 +30,8 @@ RULE = ("case = random ZX diagram over Z/X spiders of arity 0-3 (dyadic and "
         "spiders are joined twice (simple underlying graph), <= 5 boundary "
         "wires; or a random simple pyzx graph built through the pyzx API with "
         "declared disjoint inputs/outputs; or a malformed graph.  Non-trivial = "
-        ">= 2 spiders and >= 1 swap or Hadamard; distinct by diagram repr.")
+        ">= 2 spiders and >= 1 swap or Hadamard; distinct by diagram repr."
+        "  Also: import leaves the graph unchanged, second import equal; first export edited in place, diagram exported again.")
 SIZES = {"quick": (16, 400), "thorough": (16, 8000)}
 TIMEOUT = {"quick": 900, "thorough": 7200}
 COVER = {"discopy.quantum.zx:Diagram.to_pyzx": 0.9,
